@@ -342,6 +342,10 @@ func Concretise(q Req, r *rand.Rand, model string) *Concrete {
 		top = append(top, kv{"stop_sequences", c.Stops})
 	case "two":
 		c.Stops = []string{"STOP" + randStr(r, 1, 6), "\n\nHuman:" + randStr(r, 0, 3)}
+		if r.Intn(2) == 0 {
+			// stop sequences made of white space only are as good as any (a blank line ends many a completion)
+			c.Stops = []string{[]string{"\n\n", "\n", "\t", " "}[r.Intn(4)], "STOP" + randStr(r, 1, 6)}
+		}
 		top = append(top, kv{"stop_sequences", c.Stops})
 	case "seven":
 		c.Stops = nil
